@@ -44,7 +44,7 @@ ASSUMPTIONS = ['TIF-marked LIS files whose first record is exactly 276 bytes sha
 SHARDS = {'quick': 4, 'thorough': 16}
 REQUIRED_CLASSES = {'valid-RP66V1': 1, 'valid-LIS': 1, 'valid-LISt': 1, 'valid-LIStr': 1, 'valid-LAS1.2': 1, 'valid-LAS2.0': 1, 'valid-BIT': 1,
                     'valid-DAT': 1, 'arbitrary-truncation': 1, 'arbitrary-mutation': 1, 'arbitrary-splice': 1, 'arbitrary-random': 1, 'arbitrary-text-token': 1,
-                    'valid-DAT-first-row-beyond-4KiB': 1, 'valid-file>8KiB': 1, 'arbitrary-ebcdic': 1, 'valid-BIT-20-channels': 1}
+                    'valid-DAT-first-row-beyond-4KiB': 1, 'valid-file>8KiB': 1, 'arbitrary-ebcdic': 1, 'valid-BIT-20-channels': 1, 'valid-LIS-over-100-even-records-then-odd': 1}
 
 
 class Timeout(Exception):
@@ -107,8 +107,21 @@ def totality(cc, data, res, exc, tell, content, dt, what):
 # -------------------------------------------------------------------------------------------------
 # valid files
 # -------------------------------------------------------------------------------------------------
+def lis_with_many_records(case, many):
+    """More than 100 Physical Records of even length (comment records after the first file header, each in one Physical
+    Record), then records of odd length: identification samples only the head of a file so what it settles there must
+    hold for the rest.  Built at rendering time to keep the Hypothesis example small."""
+    items = list(case['items'])
+    at = next(i for i, it in enumerate(items) if it == ('delim', GL.LR_FILE_HEAD)) + 1
+    fill = [('misc', (232, bytes((k + j) & 0x7F or 0x20 for j in range(many['len'])))) for k in range(many['n'])]
+    odd = [('misc', (232, bytes(0x41 + (j % 26) for j in range(n)))) for n in many['odd']]
+    return {'cfg': dict(case['cfg'], pr_len=max(case['cfg']['pr_len'], 600)), 'items': items[:at] + fill + odd + items[at:]}
+
+
 def lis_expected(case):
     """Expected code or None when the case is excluded."""
+    if case.get('many'):
+        case = lis_with_many_records(case, case['many'])
     data, model = GL.build_lis_file(case)
     tif = case['cfg']['tif']
     first_pr_len = model['phys']['prs'][0][0][4]
@@ -127,6 +140,10 @@ def valid_cases(draw):
     if fmt == 'RP66V1':
         return {'fmt': fmt, 'model': draw(GR.physical_files(max_records=6, max_payload=800))}
     if fmt == 'LIS':
+        if draw(st.integers(0, 4)) == 0:   # > 100 even-length Physical Records, then odd-length ones (see lis_with_many_records)
+            many = {'n': draw(st.integers(90, 140)), 'len': 2 * draw(st.integers(1, 20)),
+                    'odd': draw(st.lists(st.integers(0, 20).map(lambda k: 2 * k + 1), min_size=1, max_size=6))}
+            return {'fmt': fmt, 'model': dict(draw(GL.lis_files(max_passes=1, max_frames=4, tables=False, allow_dipmeter=False)), many=many)}
         if draw(st.integers(0, 3)) == 0:   # the smallest conformant files: header, one log pass, trailer
             return {'fmt': fmt, 'model': draw(GL.lis_files(max_passes=1, max_frames=4, tables=False, allow_dipmeter=False))}
         return {'fmt': fmt, 'model': draw(GL.lis_files(max_passes=2, max_frames=20))}
@@ -206,6 +223,7 @@ def check_valid(case, cc):
         return
     cc.cls('valid-' + exp)
     cc.cls('valid-file>8KiB', len(data) > 8192)
+    cc.cls('valid-LIS-over-100-even-records-then-odd', case['fmt'] == 'LIS' and bool(case['model'].get('many')) and case['model']['many']['n'] > 100)
     cc.cls('valid-BIT-20-channels', exp == 'BIT' and any(len(p['channels']) == 20 for p in case['model']['passes']))
     cc.cls('valid-DAT-first-row-beyond-4KiB', exp == 'DAT' and _dat_first_row_end(data) > 4096)
     cc.nt(nt)
